@@ -125,7 +125,13 @@ Check (C06_event_exact :
   forall (fabs : list fabric) (who : accessor) (nd : node),
   wf_fabrics fabs = true -> wf_node_events nd = true ->
   forall (paths : list gpath) (queue : list qevent),
+  known_absent_event_no_status nd paths = false ->
   read_events fabs who nd paths queue = spec_read_events nd fabs who paths queue).
+Check (C06_event_code_exact :
+  forall (fabs : list fabric) (who : accessor) (nd : node),
+  wf_fabrics fabs = true -> wf_node_events nd = true ->
+  forall (paths : list gpath) (queue : list qevent),
+  read_events fabs who nd paths queue = strip_known (spec_read_events nd fabs who paths queue)).
 Check (C06_event_wildcard_exact :
   forall (fabs : list fabric) (who : accessor) (nd : node),
   wf_fabrics fabs = true -> wf_node_events nd = true ->
